@@ -77,7 +77,34 @@ struct Outcome {
     must_admit: bool,
 }
 
-fn run_sequence(burst: u32, block: bool, seq: &[Op]) -> Result<String, (String, String)> {
+/// Named points of hook H8 at which the harness may stall the calling request for more than one
+/// replenishment period (standing in for a preemption of the handler task at that place).
+const POINTS: [&str; 2] = ["rate_limit::refused", "rate_limit::before_check"];
+
+struct PointGuard;
+impl Drop for PointGuard {
+    fn drop(&mut self) {
+        anemo::verif::set_named_point_hook(None);
+    }
+}
+
+/// `stall`: (index into POINTS, k) = stall the k-th arrival at that point. Returns the shape and
+/// how often each point was reached.
+fn run_sequence(burst: u32, block: bool, seq: &[Op], stall: Option<(usize, usize)>) -> Result<(String, [usize; 2]), (String, String)> {
+    let hits = Arc::new(Mutex::new([0usize; 2]));
+    let hits2 = hits.clone();
+    anemo::verif::set_named_point_hook(Some(Arc::new(move |tag: &'static str| {
+        let Some(t) = POINTS.iter().position(|p| *p == tag) else { return };
+        let k = {
+            let mut h = hits2.lock().unwrap();
+            h[t] += 1;
+            h[t] - 1
+        };
+        if stall == Some((t, k)) {
+            std::thread::sleep(Duration::from_millis(PERIOD_MS + 5));
+        }
+    })));
+    let _guard = PointGuard;
     let rt = tokio::runtime::Builder::new_current_thread().enable_all().build().unwrap();
     let period = Duration::from_millis(PERIOD_MS);
     let quota = governor::Quota::with_period(period).unwrap().allow_burst(std::num::NonZeroU32::new(burst).unwrap());
@@ -153,7 +180,15 @@ fn run_sequence(burst: u32, block: bool, seq: &[Op]) -> Result<String, (String, 
     });
     let outcomes = outcomes.lock().unwrap();
     let adm = admitted.lock().unwrap().clone();
-    let ctx = format!("[burst {burst}, period {PERIOD_MS} ms, {}] sequence {:?}", if block { "Block" } else { "ReturnError" }, seq.iter().map(op_json).collect::<Vec<_>>());
+    let ctx = format!(
+        "[burst {burst}, period {PERIOD_MS} ms, {}{}] sequence {:?}",
+        if block { "Block" } else { "ReturnError" },
+        match stall {
+            Some((t, k)) => format!(", handler stalled {} ms at arrival #{k} at {}", PERIOD_MS + 5, POINTS[t]),
+            None => String::new(),
+        },
+        seq.iter().map(op_json).collect::<Vec<_>>()
+    );
     // 1. the quota: for every pair of admissions i <= j of one peer,
     //    #admitted(i..=j) <= burst + floor((admit_j - call_i) / period)
     for p in 0..2u8 {
@@ -204,6 +239,7 @@ fn run_sequence(burst: u32, block: bool, seq: &[Op]) -> Result<String, (String, 
                 }
                 match hint.as_ref().and_then(|h| h.parse::<u128>().ok()) {
                     Some(n) if n > 0 => {}
+                    Some(0) => return Err(("zero-wait-hint".into(), format!("{ctx}: refusal of request {} carries wait-nanos 0, which is not a positive hint", o.id))),
                     other => return Err(("missing-wait-hint".into(), format!("{ctx}: refusal of request {} carries wait-nanos {other:?} (header {hint:?})", o.id))),
                 }
                 if o.must_admit {
@@ -221,7 +257,8 @@ fn run_sequence(burst: u32, block: bool, seq: &[Op]) -> Result<String, (String, 
             return Err(("block-mode-stuck".into(), format!("{ctx}: {} of {issued} requests completed within 5 s of the end of the sequence", outcomes.len())));
         }
     }
-    Ok(shape)
+    let h = *hits.lock().unwrap();
+    Ok((shape, h))
 }
 
 impl Check for C19 {
@@ -229,7 +266,7 @@ impl Check for C19 {
         CheckMeta {
             property: "C19",
             level: "exploration",
-            rule: "every operation sequence over {req(P), req(Q), flood = burst+2 concurrent req(P), sleep(T/2), sleep(2T), sleep(T-3ms)} up to length 4 (quick) / 5 (thorough) x quota (burst 1 or 3, period 40 ms) x {Block, ReturnError}, through two service instances of one layer, executed in REAL time (timing sampled once per sequence); oracle: for every pair of one peer's admissions the count is <= burst + floor(window/period) with the window over-approximated from call/admit brackets; refusals carry wait-nanos > 0 and never reach the service; requests within quota under every timing must be admitted; Block never refuses; distinct = distinct admit/refuse shapes".into(),
+            rule: "every operation sequence over {req(P), req(Q), flood = burst+2 concurrent req(P), sleep(T/2), sleep(2T), sleep(T-3ms)} up to length 4 (quick) / 5 (thorough) x quota (burst 1 or 3, period 40 ms) x {Block, ReturnError}, through two service instances of one layer, executed in REAL time (timing sampled once per sequence), plus one deviation for ReturnError sequences up to length depth-1 / depth-2: the handler is stalled for more than a period at each arrival in turn at the hooked points after / before the limiter check (H8); oracle: for every pair of one peer's admissions the count is <= burst + floor(window/period) with the window over-approximated from call/admit brackets; refusals carry wait-nanos > 0 and never reach the service; requests within quota under every timing must be admitted; Block never refuses; distinct = distinct admit/refuse shapes".into(),
             assumptions: vec![
                 "real time: governor's quanta clock and futures-timer are not interceptable; the oracle uses only inequalities that hold under arbitrary scheduling delay".into(),
                 "each sequence is executed once: interleavings of the concurrent flood are sampled, not enumerated".into(),
@@ -263,9 +300,30 @@ impl Check for C19 {
             if !matches!(seq.last(), Some(Op::SleepHalf | Op::SleepTwo | Op::SleepAlmostOne)) {
                 crate::pool::crumb(|| format!("rate limiter sequence {:?}", seq.iter().map(op_json).collect::<Vec<_>>()));
                 out.evaluations += 1;
-                match run_sequence(burst, block, &seq) {
-                    Ok(shape) => out.class(format!("{} {}", if block { "block" } else { "error" }, shape.chars().take(8).collect::<String>())),
-                    Err((k, m)) => out.violation(k, m, json!({"unit": {"burst":burst,"block":block}, "sequence": seq.iter().map(|o| OPS.iter().position(|x| x == o).unwrap()).collect::<Vec<_>>()})),
+                let seq_idx = seq.iter().map(|o| OPS.iter().position(|x| x == o).unwrap()).collect::<Vec<_>>();
+                let mut hits = [0usize; 2];
+                match run_sequence(burst, block, &seq, None) {
+                    Ok((shape, h)) => {
+                        hits = h;
+                        out.class(format!("{} {}", if block { "block" } else { "error" }, shape.chars().take(8).collect::<String>()))
+                    }
+                    Err((k, m)) => out.violation(k, m, json!({"unit": {"burst":burst,"block":block}, "sequence": seq_idx})),
+                }
+                // one deviation: the handler is stalled for more than a period at one arrival at
+                // one of the hooked points (every arrival in turn)
+                for (t, max_len) in [(0usize, depth - 1), (1usize, depth - 2)] {
+                    if block || seq.len() > max_len {
+                        continue;
+                    }
+                    for k in 0..hits[t] {
+                        crate::pool::crumb(|| format!("rate limiter sequence {:?} stalled at {} #{k}", seq.iter().map(op_json).collect::<Vec<_>>(), POINTS[t]));
+                        out.evaluations += 1;
+                        out.count("stalled_executions", 1);
+                        match run_sequence(burst, block, &seq, Some((t, k))) {
+                            Ok((shape, _)) => out.class(format!("error+stall {}", shape.chars().take(8).collect::<String>())),
+                            Err((key, m)) => out.violation(key, m, json!({"unit": {"burst":burst,"block":block}, "sequence": seq_idx, "stall": [t, k]})),
+                        }
+                    }
                 }
                 if out.samples.is_empty() && seq.len() == depth {
                     out.sample(json!(seq.iter().map(op_json).collect::<Vec<_>>()));
@@ -283,7 +341,8 @@ impl Check for C19 {
 
     fn replay(&self, replay: &Value) -> String {
         let seq: Vec<Op> = replay["sequence"].as_array().unwrap().iter().map(|i| OPS[i.as_u64().unwrap() as usize]).collect();
-        let r = run_sequence(replay["unit"]["burst"].as_u64().unwrap() as u32, replay["unit"]["block"].as_bool().unwrap(), &seq);
+        let stall = replay.get("stall").and_then(|s| s.as_array()).map(|s| (s[0].as_u64().unwrap() as usize, s[1].as_u64().unwrap() as usize));
+        let r = run_sequence(replay["unit"]["burst"].as_u64().unwrap() as u32, replay["unit"]["block"].as_bool().unwrap(), &seq, stall);
         format!("sequence {:?}\nresult {r:?}\n(real-time run: timing differs from the recorded one)", seq.iter().map(op_json).collect::<Vec<_>>())
     }
 
